@@ -7,6 +7,7 @@ mod history;
 mod hooks;
 mod ops;
 mod props;
+mod race;
 mod scen;
 mod tree;
 
